@@ -368,7 +368,9 @@ def _sorted(eng, it, key=None, reverse=False):
     return STup([s.items[i] for i in order], None, True)
 
 
-def unit_symbolic_keys(nsym, nkeys, timeout_ms=20000, noncommutative=False):
+def unit_symbolic_keys(nsym, nkeys, timeout_ms=20000, noncommutative=False, given=False):
+    """given=True: the caller supplies `symbols` (all of them, in an order that is NOT the alphabetical one): index k of the result counts powers of the k-th SUPPLIED symbol
+    (documented meaning of `symbols`); given=False: the symbols occurring in the keys, sorted by name."""
     fn = frontend.find(MODULE, "_symbolic_keys_to_tuples")
     names = ["k_y", "alpha", "k_x", "beta"][:nsym]          # deliberately not in alphabetical order
 
@@ -382,13 +384,15 @@ def unit_symbolic_keys(nsym, nkeys, timeout_ms=20000, noncommutative=False):
         for qa in range(nkeys):
             for qb in range(qa):
                 eng.assume(z3.Or(keys[qa].pref, keys[qb].pref, *[keys[qa].exps[s] != keys[qb].exps[s] for s in syms]))
-        eng.globals.update({"set": SetType(), "sorted": Builtin("sorted", _sorted)})
+        eng.globals.update({"set": SetType(), "sorted": Builtin("sorted", _sorted),
+                            "sympy": Namespace("sympy", {"sympify": Builtin("sympify", lambda e, x: x)})})
+        supplied = STup(list(syms), None, True) if given else None
         clo = Closure(fn, Env(None, {}), "_symbolic_keys_to_tuples")
         any_pref = z3.Or(*[k.pref for k in keys])
         used = {s: z3.Or(*[k.exps[s] > 0 for k in keys]) for s in syms}
         nc_used = z3.Or(*[used[s] for s in syms if not s.commutative]) if noncommutative else z3.BoolVal(False)
         try:
-            res = eng.call(clo, [ham], {})
+            res = eng.call(clo, [ham] + ([supplied] if given else []), {})
         except PyRaise as pr:
             eng.oblige("raises-only-ValueError", z3.BoolVal(pr.exc.cls == "ValueError"), detail=pr.exc.cls)
             eng.oblige("raises-only-for-a-prefactor-or-a-noncommutative-symbol", z3.Or(any_pref, nc_used),
@@ -398,9 +402,14 @@ def unit_symbolic_keys(nsym, nkeys, timeout_ms=20000, noncommutative=False):
         eng.oblige("noncommutative-symbol-rejected", z3.Not(nc_used))
         r = eng.as_seq(res)
         new, symbols = r.items[0], eng.as_seq(r.items[1])
-        want_syms = sorted([s for s in syms if eng.branch(used[s])], key=lambda s: s.name)
-        ok = len(symbols.items) == len(want_syms) and all(a is b for a, b in zip(symbols.items, want_syms))
-        eng.oblige("symbols-are-the-occurring-symbols-sorted-by-name", z3.BoolVal(ok), detail=f"got {symbols.items!r}, want {want_syms!r}")
+        if given:
+            want_syms = list(syms)
+            ok = len(symbols.items) == len(want_syms) and all(a is b for a, b in zip(symbols.items, want_syms))
+            eng.oblige("symbols-are-the-supplied-symbols-in-the-supplied-order", z3.BoolVal(ok), detail=f"got {symbols.items!r}, want {want_syms!r}")
+        else:
+            want_syms = sorted([s for s in syms if eng.branch(used[s])], key=lambda s: s.name)
+            ok = len(symbols.items) == len(want_syms) and all(a is b for a, b in zip(symbols.items, want_syms))
+            eng.oblige("symbols-are-the-occurring-symbols-sorted-by-name", z3.BoolVal(ok), detail=f"got {symbols.items!r}, want {want_syms!r}")
         okd = isinstance(new, dict) and len(new) == nkeys and all(isinstance(k, (SymKey, tuple)) for k in new)
         eng.oblige("one-entry-per-input-key", z3.BoolVal(okd), detail=repr(new)[:300])
         if ok and okd:
@@ -410,7 +419,7 @@ def unit_symbolic_keys(nsym, nkeys, timeout_ms=20000, noncommutative=False):
                 eng.oblige("key-is-the-exponent-vector-in-symbol-order", cond, detail=f"{k!r} -> {tup!r}")
                 eng.oblige("value-unchanged", z3.BoolVal(nv is v))
         eng.oblige("input-dict-not-mutated", z3.BoolVal(list(ham.items()) == list(zip(keys, vals))))
-    return run_unit(f"block_diagonalization:_symbolic_keys_to_tuples[{nsym} symbols,{nkeys} keys{',noncommutative' if noncommutative else ''}]", harness,
+    return run_unit(f"block_diagonalization:_symbolic_keys_to_tuples[{nsym} symbols,{nkeys} keys{',noncommutative' if noncommutative else ''}{',symbols supplied' if given else ''}]", harness,
                     functions=[(MODULE, "_symbolic_keys_to_tuples")], timeout_ms=timeout_ms, max_paths=20000)
 
 
@@ -563,8 +572,10 @@ def unit_dict_to_blockseries(h0_kind, symbolic_keys=False, timeout_ms=10000):
             inp = {k0: h0, k1: h1, k2: h2}
             converted = {(0, 0): h0, (1, 0): h1, (0, 1): h2}
 
-            def sk2t(e, d):
+            def sk2t(e, d, symbols=None):
                 callee.append(d)
+                e.oblige("supplied-symbols-forwarded-to-the-key-conversion", z3.BoolVal(symbols is syms_in),
+                         detail="the order of the supplied symbols is the order of the indices (documented meaning of `symbols`)")
                 return STup([dict(converted), syms_out])
         else:
             inp = {(0, 0): h0, (2, 1): h2, (1, 0): h1}
